@@ -15,6 +15,26 @@ import (
 const maxInlineDepth = 6
 
 func (e *Enc) call(fr *Frame, st *State, c *ssa.CallCommon, in ssa.Instruction, pos token.Pos) []Val {
+	if fr.fc != nil && len(fr.fc.Asserts) > 0 && fr.parent == nil {
+		src := e.P.exprAt(pos)
+		for _, as := range fr.fc.Asserts {
+			if src != "" && strings.Contains(src, as.Key) {
+				as.Matched++
+				ec := e.evalCtx(fr, st)
+				cnd, err := ec.evalBool(as.Clause.Expr)
+				if err != nil {
+					e.failed = fmt.Errorf("%s:%d: %v", as.Clause.File, as.Clause.Line, err)
+					return nil
+				}
+				lab := as.Clause.Label
+				if lab == "" {
+					lab = "before " + as.Key
+				}
+				e.oblig(st, "assert", lab, cnd, pos, as.Clause.Tags, as.Clause)
+				e.assume(st, cnd)
+			}
+		}
+	}
 	var args []Val
 	for _, a := range c.Args {
 		if _, ok := fr.lrefs[a]; ok {
@@ -347,7 +367,7 @@ func (e *Enc) havocAll(st *State) {
 			if _, isArr := lf.Type.Underlying().(*types.Array); isArr {
 				continue
 			}
-			n := heapName(lf.Sort)
+			n := heapNameT(lf.Sort, lf.Type)
 			nh, ok := st.heaps[n]
 			if !ok {
 				continue
@@ -429,7 +449,7 @@ func (e *Enc) havocTarget(st *State, t modTarget) {
 				e.abstractions["modifies target containing an array: array part ignored"] = true
 				continue
 			}
-			hn, h := e.scalarHeap(st, lf.Sort)
+			hn, h := e.scalarHeapT(st, lf.Sort, lf.Type)
 			l := t.loc
 			if len(lf.Path) > 0 {
 				l = MkLoc(LRef(t.loc), LIdx(t.loc), pathWith(t.loc, lf.Path))
@@ -441,7 +461,7 @@ func (e *Enc) havocTarget(st *State, t modTarget) {
 		}
 	case "elems":
 		for _, lf := range w.Leaves(t.typ) {
-			hn, h := e.scalarHeap(st, lf.Sort)
+			hn, h := e.scalarHeapT(st, lf.Sort, lf.Type)
 			nh := e.fresh(hn, h.S)
 			l := Val{"l!", SLoc}
 			in := e.inRange(l, SBase(t.slice), SLen(t.slice), lf.Path)
@@ -626,13 +646,19 @@ func (e *Enc) builtin(fr *Frame, st *State, b *ssa.Builtin, c *ssa.CallCommon, a
 // copyElems adds facts that nh equals h except that n elements at dst hold the
 // contents of n elements at src (element type elem).
 func (e *Enc) copyLeaf(st *State, lf Leaf, dst, src, n Val, extraKeep func(l Val) Val) {
-	hn, h := e.scalarHeap(st, lf.Sort)
+	hn, h := e.scalarHeapT(st, lf.Sort, lf.Type)
 	nh := e.fresh(hn, h.S)
 	l := Val{"l!", SLoc}
 	in := e.inRange(l, dst, n, lf.Path)
 	srcLoc := MkLoc(LRef(src), BVOp("bvadd", LIdx(src), BVOp("bvsub", LIdx(l), LIdx(dst))), pathWith(src, lf.Path))
 	body := Eq(Select(nh, l), Ite(in, Select(h, srcLoc), Select(h, l)))
 	e.fact(quant("forall", []Val{l}, body, []string{Select(nh, l).T}))
+	// the same fact indexed by element number (matches index-quantified invariants)
+	i := Val{"i!", BVSort(64)}
+	di := MkLoc(LRef(dst), BVOp("bvadd", LIdx(dst), i), pathWith(dst, lf.Path))
+	si := MkLoc(LRef(src), BVOp("bvadd", LIdx(src), i), pathWith(src, lf.Path))
+	ibody := Implies(And(BVCmp("bvsle", BV(64, 0), i), BVCmp("bvslt", i, n)), Eq(Select(nh, di), Select(h, si)))
+	e.fact(quant("forall", []Val{i}, ibody, []string{Select(nh, di).T}))
 	st.heaps[hn] = nh
 }
 
@@ -903,4 +929,29 @@ func (e *Enc) funcTypeConversion(fr *Frame, st *State, in *ssa.ChangeType, x Val
 		}
 	}
 	e.oblig(st, "refine", e.siteLabel(fr, "implements:"+named.Obj().Name()+":"+lastPart(desc), in.Pos()), ok2, in.Pos(), nil, nil)
+	// a bound method value: the preconditions of the method that speak about the receiver only
+	// (its state invariant) must hold when the handler value is created
+	if mc, ok := in.X.(*ssa.MakeClosure); ok && fn != nil && strings.HasSuffix(fn.Name(), "$bound") && len(mc.Bindings) == 1 {
+		var target *ssa.Function
+		if fo, ok := fn.Object().(*types.Func); ok {
+			target = e.P.SSA.FuncValue(fo)
+		}
+		if target != nil {
+			if fc, ok := e.P.CS.Funcs[funcKey(target)]; ok && target.Signature.Recv() != nil {
+				recv := e.val(fr, st, mc.Bindings[0])
+				bind := map[string]TV{"self": {Val: recv, Ty: target.Signature.Recv().Type()}}
+				if n := target.Signature.Recv().Name(); n != "" {
+					bind[n] = bind["self"]
+				}
+				for i, rq := range fc.Requires {
+					ec := &EvalCtx{e: e, st: st, old: st, bind: bind, spec: fc.Spec}
+					cnd, err := ec.evalBool(rq.Expr)
+					if err != nil {
+						continue // mentions other parameters: not a receiver invariant
+					}
+					e.oblig(st, "refine", e.siteLabel(fr, fmt.Sprintf("receiver-invariant:%s:%d", lastPart(funcKey(target)), i+1), in.Pos()), cnd, in.Pos(), []string{"C19"}, rq)
+				}
+			}
+		}
+	}
 }
